@@ -161,7 +161,8 @@ class Acc:
         self.fail_by_sig[sig] += 1
         if self.fail_by_sig[sig] <= MAX_FAILS_PER_SIG:
             self.failures.append({"case": self.case, "kind": kind, "expected": expected,
-                                  "observed": observed, "classifier": classifier, "note": note})
+                                  "observed": observed, "classifier": classifier, "note": note,
+                                  "shard": getattr(self, "shard", None), "index": self.idx})
 
     def result(self):
         return {"evals": self.evals, "transitions": self.transitions, "traces": self.traces,
@@ -177,8 +178,32 @@ def load_check(prop):
     return importlib.import_module(f"mc.checks.{prop.lower()}")
 
 
+def _raised_in_library(exc):
+    """True when the innermost frame of the traceback is NOT harness code: the library (or numpy underneath it) raised
+    inside an operation the check did not expect to fail"""
+    tb = exc.__traceback__
+    last = None
+    while tb is not None:
+        last = tb.tb_frame.f_code.co_filename
+        tb = tb.tb_next
+    return last is not None and not os.path.realpath(last).startswith(VERIF + os.sep)
+
+
+def guarded_check(mod, case, acc):
+    try:
+        mod.check(case, acc)
+    except Hang:
+        acc.fail("hang", "case terminates", f"no result within {CASE_TIMEOUT_S}s")
+    except Exception as e:  # noqa: BLE001
+        if not _raised_in_library(e):
+            raise
+        acc.fail("library-raised-in-an-operation-that-never-fails-on-a-correct-tree", "no exception",
+                 ("X", type(e).__name__, str(e)[:200]))
+
+
 def run_one_shard(mod, shard, tier, seed, record_obs=False):
     acc = Acc(mod.PROP, seed, record_obs=record_obs)
+    acc.shard = shard
     signal.signal(signal.SIGALRM, _on_alarm)
     try:
         if hasattr(mod, "run_shard"):
@@ -186,13 +211,15 @@ def run_one_shard(mod, shard, tier, seed, record_obs=False):
                 mod.run_shard(shard, tier, acc)
             except Hang:
                 acc.fail("hang", "case terminates", f"no result within {CASE_TIMEOUT_S}s")
+            except Exception as e:  # noqa: BLE001
+                if not _raised_in_library(e) or acc.case is None:
+                    raise
+                acc.fail("library-raised-in-an-operation-that-never-fails-on-a-correct-tree", "no exception",
+                         ("X", type(e).__name__, str(e)[:200]))
         else:
             for case in mod.cases(shard, tier):
                 acc.begin(case)
-                try:
-                    mod.check(case, acc)
-                except Hang:
-                    acc.fail("hang", "case terminates", f"no result within {CASE_TIMEOUT_S}s")
+                guarded_check(mod, case, acc)
     finally:
         signal.setitimer(signal.ITIMER_REAL, 0)
     return acc.result()
@@ -407,7 +434,8 @@ def write_replay(prop, tier, f, rdir):
     with open(path, "w") as fh:
         json.dump({"property": prop, "tier": tier, "case": f["case"], "kind": f["kind"],
                    "expected": f["expected"], "observed": f["observed"],
-                   "classifier": f["classifier"], "note": f["note"]}, fh, indent=1, default=_jdefault)
+                   "classifier": f["classifier"], "note": f["note"],
+                   "shard": f.get("shard"), "index": f.get("index")}, fh, indent=1, default=_jdefault)
         fh.write("\n")
     with open(os.path.join(rdir, f"{d}.py"), "w") as fh:
         fh.write(REPLAY_PY.format(verif=VERIF, prop=prop, path=path))
@@ -429,24 +457,39 @@ print("ok: recorded case no longer violates {prop}")
 
 
 def replay_case(prop, path):
+    """re-run one recorded case on fresh objects.  If it does not violate on its own but was recorded inside a Mode-I shard,
+    re-run the cases of that shard up to and including it in this (fresh) process: a failure that needs process-global state
+    left behind by earlier cases (a module-level cache, a class-level flag) is reproduced that way, deterministically."""
     bind_repo()
     with open(path) as fh:
         rec = json.load(fh)
     mod = load_check(prop)
+    known = {(k["property"], k["classifier"]): k for k in load_known()}
+
+    def bad_of(acc):
+        return [f for f in acc.failures
+                if not (f["classifier"] and (prop, f["classifier"]) in known
+                        and known[(prop, f["classifier"])].get("status") == "known")]
     acc = Acc(prop, 0)
     signal.signal(signal.SIGALRM, _on_alarm)
-    acc.begin(rec["case"])
     try:
-        mod.check(rec["case"], acc)
-    except Hang:
-        acc.fail("hang", "case terminates", "timeout")
+        acc.begin(rec["case"])
+        guarded_check(mod, rec["case"], acc)
+        if not bad_of(acc) and rec.get("shard") is not None and hasattr(mod, "cases") and not hasattr(mod, "run_shard"):
+            acc = Acc(prop, 0)
+            target = jdump(rec["case"])
+            for i, case in enumerate(mod.cases(rec["shard"], rec.get("tier", "quick"))):
+                hit = jdump(case) == target
+                sub = acc if hit else Acc(prop, 0)
+                sub.begin(case)
+                guarded_check(mod, case, sub)
+                if hit:
+                    for f in acc.failures:
+                        f["note"] = (f.get("note") or "") + " [reproduced only after the preceding cases of its shard: process-global state]"
+                    break
     finally:
         signal.setitimer(signal.ITIMER_REAL, 0)
-    known = {(k["property"], k["classifier"]): k for k in load_known()}
-    bad = [f for f in acc.failures
-           if not (f["classifier"] and (prop, f["classifier"]) in known
-                   and known[(prop, f["classifier"])].get("status") == "known")]
-    return (1 if bad else 0), acc.failures
+    return (1 if bad_of(acc) else 0), acc.failures
 
 
 def _replay_subprocess(prop, path, root):
